@@ -2,6 +2,8 @@
 EXTENDS SkipOptions
 MCPats == {RePat(Cat(Bol, Cat(Lit("a"), Eol))), RePat(Lit("K")), RePat(Cat(Perl("S"), Cat(Lit("e"), Eol))), RePat(Cat(Bol, Perl("W"))),
            RePat(Cat(Bol, Cls({"a", "K"}, TRUE))), RePat(Cat(Lit("DOT"), Lit("K"))), RePat(Cat(Lit("LONGS"), Eol)),
+           \* texts with a comma: a counted repetition and a class that lists one
+           RePat(Cat(Bol, Cat(Rep12(Lit("a")), Eol))), RePat(Cat(Bol, Cat(Lit("K"), Cat(Rep12(Lit("e")), Eol)))), RePat(Cat(Bol, Cat(Cls({"a", "COMMA"}, FALSE), Eol))),
            PlainPat(<<"a">>), PlainPat(<<"A", "K">>), PlainPat(<<"KELVIN">>), PlainPat(<<"a", "DOT", "K">>),
            PlainPat(<<"K", "e">>), PlainPat(<<"s", "DOT", "a">>)}
 \* queried destination paths: identifiers (and nested paths) that can be real Go field names
